@@ -356,13 +356,17 @@ Proof.
   - split; [apply Hi|]. intros n Hn. rewrite (proj2 (i_enext st Hi) n Hn). reflexivity.
 Qed.
 
-Lemma inv_drop : forall st s, inv st -> inv (fst (step st (DropSession s))).
+(** dropping a session = rolling its transaction back (3eb02b5): same state, whether or not a transaction is open *)
+Lemma drop_state : forall st s, fst (step st (DropSession s)) = fst (step st (Rollback s)).
 Proof.
-  intros st s Hi. cbn [step fst]. constructor; cbn; try (hi Hi).
-  - intros s0 t. unfold upd. destruct (Z.eqb_spec s0 s); [discriminate|]. apply Hi.
-  - intros s1 s2 t. unfold upd. destruct (Z.eqb_spec s1 s); [discriminate|].
-    destruct (Z.eqb_spec s2 s); [discriminate|]. apply Hi.
+  intros st s. cbn [step]. destruct (sess st s) as [t|]; [|reflexivity].
+  destruct (tm_abort _ t) as [st4 ok]. reflexivity.
 Qed.
+Lemma drop_out : forall st s, snd (step st (DropSession s)) = OUnit.
+Proof. intros st s. cbn [step]. destruct (sess st s); reflexivity. Qed.
+
+Lemma inv_drop : forall st s, inv st -> inv (fst (step st (DropSession s))).
+Proof. intros st s Hi. rewrite drop_state. apply inv_rollback. exact Hi. Qed.
 
 (** triple operations *)
 Lemma inv_set_rdf_same_buf : forall st r, inv st -> inv (set_rdf st r (rdf_buf st)).
